@@ -1,418 +1,8 @@
-(* C14 — invariants of the Merge / Pool / updateReferrersIndex transition
-   system of Model/Merge.v, for every trace (= every interleaving of lock
-   regions and HTTP exchanges of any number of callers, with injected
-   failures of the index GET / PUT / DELETE). *)
+(* C14 — structural invariant of the Merge / Pool / updateReferrersIndex transition system of
+   Model/Merge.v (pieces: MergeBase, MergeSA, MergeSB, MergeSC), for every trace. *)
 From Oras Require Import Base.Prelude Model.Referrers Proofs.Referrers Model.Merge.
+From Oras Require Export Proofs.MergeBase Proofs.MergeSA Proofs.MergeSB Proofs.MergeSC.
 From Coq Require Import Lia.
-
-Lemma upd_eq {A} (f : nat -> A) k v : upd f k v k = v.
-Proof. unfold upd. now rewrite Nat.eqb_refl. Qed.
-
-Lemma upd_neq {A} (f : nat -> A) k v x : x <> k -> upd f k v x = f x.
-Proof. unfold upd. intro H. apply Nat.eqb_neq in H. now rewrite H. Qed.
-
-Lemma mem_In t l : mem t l = true <-> In t l.
-Proof.
-  unfold mem. rewrite existsb_exists. split.
-  - intros (x & Hx & E). apply Nat.eqb_eq in E. now subst.
-  - intro H. exists t. split; auto. apply Nat.eqb_refl.
-Qed.
-
-Lemma mem_false t l : mem t l = false <-> ~ In t l.
-Proof. rewrite <- mem_In. destruct (mem t l); split; congruence. Qed.
-
-Ltac tcase t' t :=
-  let Hne := fresh "Hne" in
-  destruct (Nat.eq_dec t' t) as [->|Hne];
-  [rewrite ?upd_eq in * | rewrite ?upd_neq in * by exact Hne].
-
-Lemma in_map_fst_snoc {A B} (l : list (A * B)) x y z :
-  In z (map fst (l ++ [(x, y)])) <-> In z (map fst l) \/ z = x.
-Proof. rewrite map_app, in_app_iff. simpl. intuition. Qed.
-
-Lemma in_snoc {A} (l : list A) x z : In z (l ++ [x]) <-> In z l \/ z = x.
-Proof. rewrite in_app_iff. simpl. intuition. Qed.
-
-Lemma NoDup_map_fst_snoc {A B} (l : list (A * B)) x y :
-  NoDup (map fst l) -> ~ In x (map fst l) -> NoDup (map fst (l ++ [(x, y)])).
-Proof. intros. rewrite map_app. simpl. now apply NoDup_app_one. Qed.
-
-Lemma snoc_not_nil {A} (l : list A) x : l ++ [x] <> [].
-Proof. destruct l; discriminate. Qed.
-
-Lemma in_fst {A B} (l : list (A * B)) x y : In (x, y) l -> In x (map fst l).
-Proof. intro H. apply in_map_iff. exists (x, y). auto. Qed.
-
-Definition post_commit (p : pc) : bool :=
-  match p with NeedPut _ _ | NeedDel _ _ | Completing _ => true | _ => false end.
-
-Definition flag (p : pc) : bool :=
-  match p with
-  | NeedDel _ a => a
-  | Completing r => match r with RErr => false | _ => true end
-  | _ => false
-  end.
-
-Lemma main_holding p : is_main p = true -> holding p = true.
-Proof. destruct p; simpl; congruence. Qed.
-Lemma post_commit_main p : post_commit p = true -> is_main p = true.
-Proof. destruct p; simpl; congruence. Qed.
-
-(* ------------------------------------------------------------------ *)
-(* Structure of the protocol                                           *)
-(* ------------------------------------------------------------------ *)
-Record InvS (s : state) : Prop := {
-  i_items : forall t c, In (t, c) (items s) ->
-      (pcs s t = Wait \/ is_main (pcs s t) = true) /\ arg s t = c;
-  i_items_nd : NoDup (batch s);
-  i_pend : forall t c, In (t, c) (pending s) ->
-      pcs s t = Wait /\ arg s t = c /\ ~ In t (batch s);
-  i_pend_nd : NoDup (map fst (pending s));
-  i_main_in : forall t, is_main (pcs s t) = true -> In t (batch s) /\ token s = false;
-  i_main_unique : forall t1 t2, is_main (pcs s t1) = true -> is_main (pcs s t2) = true -> t1 = t2;
-  i_token : token s = true -> items s <> [] /\ committed s = false;
-  i_nomain : items s = [] ->
-      token s = false /\ committed s = false /\ pending s = [] /\ applied s = false;
-  i_committed : forall t, post_commit (pcs s t) = true -> committed s = true;
-  i_applied : applied s = true -> committed s = true;
-  i_got : forall t c, pcs s t = Got c -> arg s t = c;
-  i_wait : forall t, pcs s t = Wait -> In t (batch s) \/ In t (map fst (pending s));
-  i_token_or_main : items s <> [] -> token s = true \/ exists t, is_main (pcs s t) = true;
-  i_pool : exists hs, NoDup hs /\ (forall t, In t hs <-> holding (pcs s t) = true) /\
-      match pool s with None => hs = [] | Some rc => rc = length hs /\ hs <> [] end
-}.
-
-Lemma invS_init r0 st0 : InvS (init r0 st0).
-Proof.
-  constructor; simpl; intros; try discriminate; try tauto; try (now constructor).
-  exists []. repeat split; try constructor; simpl; try tauto; discriminate.
-Qed.
-
-Ltac inst :=
-  repeat match goal with
-  | H : Some _ = Some _ |- _ => injection H as H; try subst
-  | H : (_, _) = (_, _) |- _ => injection H as ? ?; try subst
-  | H : _ /\ _ |- _ => destruct H
-  | H : exists _, _ |- _ => destruct H
-  | H : In _ (map fst (_ ++ [(_, _)])) |- _ => apply in_map_fst_snoc in H
-  | H : In _ (_ ++ [_]) |- _ => apply in_snoc in H
-  | H : _ \/ _ |- _ => destruct H
-  end.
-
-Ltac fin :=
-  try discriminate; try congruence; try lia; try tauto;
-  try (unfold batch in *; simpl in *; rewrite ?in_map_fst_snoc, ?in_snoc in *);
-  try solve [eauto 4 using snoc_not_nil, NoDup_map_fst_snoc, in_fst
-            | intuition (try congruence; try lia; eauto 4 using in_fst)].
-
-Ltac solveS t :=
-  intros;
-  repeat match goal with
-         | H : context [upd _ t _ ?x] |- _ => tcase x t
-         | |- context [upd _ t _ ?x] => tcase x t
-         end;
-  simpl in *; inst; fin.
-
-Lemma pool_same_holding s t p hs :
-  holding (pcs s t) = true -> holding p = true ->
-  (forall t', In t' hs <-> holding (pcs s t') = true) ->
-  (forall t', In t' hs <-> holding (upd (pcs s) t p t') = true).
-Proof.
-  intros H1 H2 H t'. tcase t' t; [rewrite H; tauto | apply H].
-Qed.
-
-Ltac poolS t :=
-  match goal with Hp : exists hs, NoDup hs /\ _ |- _ =>
-    let hs := fresh "hs" in destruct Hp as (hs & ? & ? & ?); exists hs;
-    split; [assumption|split; [apply pool_same_holding;
-      [match goal with Hq : pcs _ t = _ |- _ => rewrite Hq; reflexivity end|reflexivity|assumption] | assumption]] end.
-
-(* facts about the stepping thread used by several cases *)
-Lemma not_in_batch s t : InvS s -> pcs s t <> Wait -> is_main (pcs s t) = false -> ~ In t (batch s).
-Proof.
-  intros I H1 H2 Hin. unfold batch in Hin. apply in_map_iff in Hin as ((t', c) & E & Hin). simpl in E. subst t'.
-  destruct (i_items s I t c Hin) as [[H|H] _]; congruence.
-Qed.
-
-Lemma not_in_pending s t : InvS s -> pcs s t <> Wait -> ~ In t (map fst (pending s)).
-Proof.
-  intros I H1 Hin. apply in_map_iff in Hin as ((t', c) & E & Hin). simpl in E. subst t'.
-  destruct (i_pend s I t c Hin) as [H _]. congruence.
-Qed.
-
-Lemma pool_none s : InvS s -> pool s = None ->
-  (forall t, holding (pcs s t) = false) /\ items s = [] /\ pending s = [].
-Proof.
-  intros I Hp. destruct (i_pool s I) as (hs & _ & Hin & Hm). rewrite Hp in Hm. subst hs.
-  assert (Hh : forall t, holding (pcs s t) = false).
-  { intro t. destruct (holding (pcs s t)) eqn:E; auto. apply Hin in E. destruct E. }
-  split; auto. split.
-  - destruct (items s) as [|[t c] l] eqn:E; auto.
-    destruct (i_items s I t c) as [[H|H] _]; [rewrite E; now left| |];
-      specialize (Hh t); [rewrite H in Hh | apply main_holding in H; rewrite H in Hh]; discriminate.
-  - destruct (pending s) as [|[t c] l] eqn:E; auto.
-    destruct (i_pend s I t c) as [H _]; [rewrite E; now left|].
-    specialize (Hh t). rewrite H in Hh. discriminate.
-Qed.
-
-Lemma token_or_main_keep s t p :
-  is_main (pcs s t) = false \/ is_main p = true ->
-  token s = true \/ (exists t0, is_main (pcs s t0) = true) ->
-  token s = true \/ exists t0, is_main (upd (pcs s) t p t0) = true.
-Proof.
-  intros Hc [H|(t0 & H)]; auto. right. destruct (Nat.eq_dec t0 t) as [->|Hne].
-  - destruct Hc as [Hc|Hc]; [congruence|]. exists t. now rewrite upd_eq.
-  - exists t0. now rewrite upd_neq.
-Qed.
-
-Ltac tomS := solve [let Hx := fresh "Hx" in intro Hx; apply token_or_main_keep;
-  [first [left; match goal with Hq : pcs _ _ = _ |- _ => rewrite Hq; reflexivity end | right; reflexivity]
-  | match goal with Hi : _ <> [] -> _ \/ _ |- _ => apply Hi; exact Hx end]].
-
-Lemma stepS_get sg s t c s' : InvS s -> step sg s (EGet t c) = Some s' -> InvS s'.
-Proof.
-  intros I H. simpl in H.
-  destruct (pcs s t) eqn:Hpc; try discriminate.
-  destruct (is_empty (cdesc c)) eqn:Hne0; try discriminate.
-  assert (Hnb : ~ In t (batch s)) by (apply not_in_batch; auto; rewrite Hpc; [discriminate|reflexivity]).
-  assert (Hnp : ~ In t (map fst (pending s))) by (apply not_in_pending; auto; rewrite Hpc; discriminate).
-  destruct (pool s) as [rc|] eqn:Hpool; injection H as <-.
-  + destruct I. constructor; simpl.
-    all: try solve [solveS t | tomS].
-    all: try solve [intros t0 c0 Hin; assert (t0 <> t) by (intro; subst; eauto using in_fst);
-                    rewrite !upd_neq by auto; auto].
-    * destruct i_pool0 as (hs & Hnd & Hin & Hp). rewrite Hpool in Hp. destruct Hp as [-> Hp].
-      exists (t :: hs). repeat split; try discriminate.
-      -- constructor; auto. intro Hx. apply Hin in Hx. rewrite Hpc in Hx. discriminate.
-      -- intros [<-|Hx]; [now rewrite upd_eq|]. tcase t0 t; auto. now apply Hin.
-      -- intro Hx. tcase t0 t; [now left|]. right. now apply Hin.
-  + destruct (pool_none s I Hpool) as (Hh & Hi & Hpd).
-    destruct (i_nomain s I Hi) as (Ht & Hc & _ & Ha).
-    assert (Hnm : forall t0, is_main (pcs s t0) = false).
-    { intro t0. destruct (is_main (pcs s t0)) eqn:E; auto. apply main_holding in E. rewrite Hh in E. discriminate. }
-    destruct I. constructor; simpl.
-    all: try solve [solveS t].
-    all: try solve [constructor].
-    all: try solve [intros t0 Hx; tcase t0 t; [discriminate|]; try apply post_commit_main in Hx; rewrite Hnm in Hx; discriminate].
-    all: try solve [intro Hx; congruence].
-    all: try solve [intros t0 Hx; tcase t0 t; [discriminate|]; exfalso; specialize (Hh t0); rewrite Hx in Hh; discriminate].
-    exists [t]. repeat split; try discriminate.
-    -- constructor; [simpl; tauto|constructor].
-    -- intros [<-|[]]. now rewrite upd_eq.
-    -- intro Hx. tcase t0 t; [now left|]. rewrite Hh in Hx. discriminate.
-Qed.
-
-Lemma stepS_assign sg s t s' : InvS s -> step sg s (EAssign t) = Some s' -> InvS s'.
-Proof.
-  intros I H. simpl in H.
-  destruct (pcs s t) eqn:Hpc; try discriminate.
-  assert (Hnb : ~ In t (batch s)) by (apply not_in_batch; auto; rewrite Hpc; [discriminate|reflexivity]).
-  assert (Hnp : ~ In t (map fst (pending s))) by (apply not_in_pending; auto; rewrite Hpc; discriminate).
-  assert (Harg : arg s t = c) by (eapply i_got; eauto).
-  assert (Hne_items : forall t0 c0, In (t0, c0) (items s) -> t0 <> t) by (intros t0 c0 Hin ->; eauto using in_fst).
-  assert (Hne_pend : forall t0 c0, In (t0, c0) (pending s) -> t0 <> t) by (intros t0 c0 Hin ->; eauto using in_fst).
-  destruct (committed s) eqn:Hc; injection H as <-.
-  + destruct I. constructor; simpl.
-    all: try solve [solveS t | poolS t | tomS].
-    all: try solve [intros t0 c0 Hin; rewrite !upd_neq by eauto; auto].
-    all: try solve [intros t0 Hx; tcase t0 t; [right; apply in_map_fst_snoc; auto|];
-                    destruct (i_wait0 t0 Hx); [auto|right; apply in_map_fst_snoc; auto]].
-    intros t0 c0 Hin. apply in_snoc in Hin. destruct Hin as [Hin|Hin].
-    * rewrite !upd_neq by eauto. auto.
-    * injection Hin as -> ->. rewrite upd_eq. auto.
-  + destruct I. constructor; simpl.
-    all: try solve [solveS t | poolS t].
-    all: try solve [intros t0 c0 Hin; apply in_snoc in Hin; destruct Hin as [Hin|Hin];
-                    [rewrite !upd_neq by eauto; auto | injection Hin as -> ->; rewrite upd_eq; auto]].
-    all: try solve [intros t0 c0 Hin; rewrite !upd_neq by eauto; destruct (i_pend0 t0 c0 Hin) as (A & B & C);
-                    repeat split; auto; unfold batch; simpl; rewrite in_map_fst_snoc; intros [Hx|Hx]; [auto|];
-                    subst; eapply Hne_pend; eauto].
-    all: try solve [intros t0 Hx; tcase t0 t; [discriminate|]; destruct (i_main_in0 t0 Hx) as [A B]; split;
-                    [unfold batch; simpl; rewrite in_map_fst_snoc; auto
-                    |unfold batch in A; destruct (items s); [destruct A|]; simpl; auto]].
-    all: try solve [intro Hx; exfalso; eapply snoc_not_nil; eauto].
-    all: try solve [intros t0 Hx; unfold batch; simpl; rewrite in_map_fst_snoc; tcase t0 t; [auto|];
-                    destruct (i_wait0 t0 Hx); auto].
-    intros _. destruct (items s) as [|it its] eqn:Ei; [now left|]. simpl.
-    apply token_or_main_keep; [left; rewrite Hpc; reflexivity|]. apply i_token_or_main0. discriminate.
-Qed.
-
-(* a step of the main thread that stays main: only its pc, the committed flag,
-   the registry and ghost fields change *)
-Lemma invS_main s t p cm r st l j ap :
-  InvS s -> is_main (pcs s t) = true -> is_main p = true ->
-  (committed s = true -> cm = true) -> (post_commit p = true -> cm = true) -> (ap = true -> cm = true) ->
-  InvS (mkSt (pool s) cm (items s) (token s) (pending s) (upd (pcs s) t p) r st (arg s) l j ap).
-Proof.
-  intros I Hm Hp Hc1 Hc2 Hc3.
-  destruct (i_main_in s I t Hm) as [Hin Htok].
-  assert (Hni : items s <> []).
-  { unfold batch in Hin. destruct (items s); [destruct Hin|discriminate]. }
-  assert (Hu : forall t0, is_main (pcs s t0) = true -> t0 = t) by (intros; eapply i_main_unique; eauto).
-  destruct I. constructor; simpl.
-  all: try solve [solveS t | poolS t].
-  all: try solve [intros t0 c0 Hin0; destruct (i_items0 t0 c0 Hin0) as [A B]; split; auto; tcase t0 t; auto].
-  all: try solve [intros t0 c0 Hin0; destruct (i_pend0 t0 c0 Hin0) as (A & B & C); repeat split; auto;
-                  tcase t0 t; auto; rewrite A in Hm; discriminate].
-  all: try solve [intros t0 Hx; tcase t0 t; auto].
-  all: try solve [intros t1 t2 H1 H2; tcase t1 t; tcase t2 t; auto; symmetry; auto].
-  all: try solve [intros t0 Hx; tcase t0 t; auto; apply Hc1; eapply i_committed0; eauto].
-  all: try solve [intros t0 c0 Hx; tcase t0 t; [rewrite Hx in Hp; discriminate | eauto]].
-  all: try solve [intros t0 Hx; tcase t0 t; [rewrite Hx in Hp; discriminate | auto]].
-  all: try solve [intros _; right; exists t; rewrite upd_eq; exact Hp].
-  destruct i_pool0 as (hs & A & B & C); exists hs; repeat split; auto.
-  - intro Hx; tcase t0 t; [now apply main_holding|]; now apply B.
-  - intro Hx; apply B; tcase t0 t; [now apply main_holding|auto].
-Qed.
-
-Lemma stepS_main_events sg s e s' t :
-  InvS s -> step sg s e = Some s' ->
-  (e = ECommit t \/ (exists f, e = EPrepare t f) \/ (exists f, e = EPut t f) \/ (exists f, e = EDel t f)) ->
-  InvS s'.
-Proof.
-  intros I H [->|[[f ->]|[[f ->]|[f ->]]]]; simpl in H.
-  - destruct (pcs s t) eqn:Hpc; try discriminate.
-    destruct old as [o|].
-    + destruct (apply_changes (idx o) (map snd (items s))) as [|new] eqn:Ea.
-      * injection H as <-. unfold set_pc, add_lin, set_committed; simpl.
-        apply invS_main; auto; rewrite ?Hpc; auto.
-      * destruct (negb (is_nil new) || sg).
-        -- injection H as <-. unfold set_pc, set_committed; simpl. apply invS_main; auto; rewrite ?Hpc; auto.
-        -- destruct o as [oi|]; injection H as <-; unfold set_pc, add_lin, set_committed; simpl;
-             apply invS_main; auto; rewrite ?Hpc; auto.
-    + injection H as <-. unfold set_pc, set_committed; simpl. apply invS_main; auto; rewrite ?Hpc; auto.
-  - destruct (pcs s t) eqn:Hpc; try discriminate. injection H as <-.
-    unfold set_pc. apply invS_main; auto; rewrite ?Hpc; auto; try discriminate. apply (i_applied s I).
-  - destruct (pcs s t) eqn:Hpc; try discriminate.
-    assert (Hcm : committed s = true) by (apply (i_committed s I t); rewrite Hpc; reflexivity).
-    destruct f; injection H as <-; unfold set_pc, add_lin, set_reg; simpl;
-      apply invS_main; auto; rewrite ?Hpc; auto.
-    unfold after_put. destruct sg; [reflexivity|]. destruct old; reflexivity.
-  - destruct (pcs s t) as [|c0| | |o|nw o|oi ap|r|r|r] eqn:Hpc; try discriminate.
-    assert (Hcm : committed s = true) by (apply (i_committed s I t); rewrite Hpc; reflexivity).
-    destruct f; injection H as <-.
-    + unfold set_pc, set_reg; simpl. apply invS_main; auto; rewrite ?Hpc; auto.
-    + destruct ap; unfold set_pc, add_lin, set_reg; simpl; apply invS_main; auto; rewrite ?Hpc; auto.
-Qed.
-
-Lemma stepS_recv sg s t s' : InvS s -> step sg s (ERecvMain t) = Some s' -> InvS s'.
-Proof.
-  intros I H. simpl in H.
-  destruct (pcs s t) eqn:Hpc; try discriminate.
-  destruct (token s) eqn:Htok; simpl in H; try discriminate.
-  destruct (mem t (batch s)) eqn:Hmem; try discriminate. injection H as <-.
-  apply mem_In in Hmem.
-  assert (Hnm : forall t0, is_main (pcs s t0) = false).
-  { intro t0. destruct (is_main (pcs s t0)) eqn:E; auto. destruct (i_main_in s I t0 E). congruence. }
-  destruct (i_token s I Htok) as [Hni Hcm].
-  destruct I. constructor; simpl.
-  all: try solve [solveS t | poolS t].
-  all: try solve [intros _; right; exists t; rewrite upd_eq; reflexivity].
-  all: try solve [intros t0 Hx; tcase t0 t; [discriminate|auto]].
-  - intros t0 c0 Hin. destruct (i_items0 t0 c0 Hin) as [A B]. split; auto. tcase t0 t; auto.
-  - intros t0 c0 Hin. destruct (i_pend0 t0 c0 Hin) as (A & B & C). repeat split; auto.
-    tcase t0 t; auto. tauto.
-Qed.
-
-Lemma remove_facts (hs : list nat) t : NoDup hs -> In t hs ->
-  NoDup (remove Nat.eq_dec t hs) /\
-  (forall x, In x (remove Nat.eq_dec t hs) <-> In x hs /\ x <> t) /\
-  S (length (remove Nat.eq_dec t hs)) = length hs.
-Proof.
-  induction hs as [|h l IH]; intros Hnd Hin; [destruct Hin|].
-  inversion Hnd as [|? ? Hn Hd]; subst. simpl.
-  destruct (Nat.eq_dec t h) as [->|Hne].
-  - assert (E : remove Nat.eq_dec h l = l) by (apply notin_remove; auto).
-    rewrite E. split; [auto|split; [|reflexivity]].
-    intro x. split.
-    + intro Hx. split; [now right|]. intro; subst. auto.
-    + intros [[Hx|Hx] Hy]; congruence.
-  - destruct Hin as [Hin|Hin]; [congruence|].
-    destruct (IH Hd Hin) as (A & B & C). split; [|split].
-    + constructor; auto. intro Hx. apply B in Hx. tauto.
-    + intro x. split.
-      * intros [Hx|Hx]; [subst; split; [now left|congruence]|]. apply B in Hx. split; [now right|tauto].
-      * intros [[Hx|Hx] Hy]; [now left|right; apply B; auto].
-    + simpl. lia.
-Qed.
-
-Lemma stepS_done sg s t s' : InvS s -> step sg s (EDone t) = Some s' -> InvS s'.
-Proof.
-  intros I H. simpl in H.
-  destruct (pcs s t) as [|c0| | |o|nw o|oi ap|r|r|r] eqn:Hpc; try discriminate.
-  destruct (pool s) as [rc|] eqn:Hpool; try discriminate. injection H as <-.
-  assert (Hnb : ~ In t (batch s)) by (apply not_in_batch; auto; rewrite Hpc; [discriminate|reflexivity]).
-  assert (Hnp : ~ In t (map fst (pending s))) by (apply not_in_pending; auto; rewrite Hpc; discriminate).
-  assert (Hne_items : forall t0 c0, In (t0, c0) (items s) -> t0 <> t) by (intros t0 c0 Hin ->; eauto using in_fst).
-  assert (Hne_pend : forall t0 c0, In (t0, c0) (pending s) -> t0 <> t) by (intros t0 c0 Hin ->; eauto using in_fst).
-  destruct I. constructor; simpl.
-  all: try solve [solveS t | tomS].
-  all: try solve [intros t0 c0 Hin; rewrite !upd_neq by eauto; auto].
-  all: try solve [intros t0 Hx; tcase t0 t; [discriminate|auto]].
-  destruct i_pool0 as (hs & Hnd & Hin & Hp). rewrite Hpool in Hp. destruct Hp as [-> Hne0].
-  assert (Ht : In t hs) by (apply Hin; rewrite Hpc; reflexivity).
-  destruct (remove_facts hs t Hnd Ht) as (A & B & C).
-  exists (remove Nat.eq_dec t hs). repeat split; auto.
-  - intro Hx. apply B in Hx as [Hx Hy]. rewrite upd_neq by auto. now apply Hin.
-  - intro Hx. tcase t0 t; [discriminate|]. apply B. split; auto. now apply Hin.
-  - destruct (Nat.leb (length hs - 1) 0) eqn:El.
-    + apply Nat.leb_le in El. destruct (remove Nat.eq_dec t hs) eqn:Er; [reflexivity|]. exfalso. rewrite ?Er in C. simpl in C. unfold tid in *. lia.
-    + apply Nat.leb_gt in El. unfold tid in *. split; [lia|]. intro E. rewrite E in C. simpl in C. lia.
-Qed.
-
-Lemma batch_member s t : InvS s -> In t (batch s) -> pcs s t = Wait \/ is_main (pcs s t) = true.
-Proof.
-  intros I Hin. unfold batch in Hin. apply in_map_iff in Hin as ((t', c) & E & Hin). simpl in E. subst t'.
-  now destruct (i_items s I t c Hin).
-Qed.
-
-Definition complete_pcs (s : state) (t : tid) (r : result) : tid -> pc :=
-  fun x => if Nat.eqb x t then Ret r else if mem x (batch s) then Ret r else pcs s x.
-
-Lemma complete_pcs_cases s t r x :
-  ((x = t \/ In x (batch s)) /\ complete_pcs s t r x = Ret r) \/
-  (x <> t /\ ~ In x (batch s) /\ complete_pcs s t r x = pcs s x).
-Proof.
-  unfold complete_pcs. destruct (Nat.eqb_spec x t) as [->|Hne]; [left; auto|].
-  destruct (mem x (batch s)) eqn:E.
-  - apply mem_In in E. left; auto.
-  - apply mem_false in E. right; auto.
-Qed.
-
-Lemma stepS_complete sg s t s' : InvS s -> step sg s (EComplete t) = Some s' -> InvS s'.
-Proof.
-  intros I H. simpl in H.
-  destruct (pcs s t) as [|c0| | |o|nw o|oi ap|r|r|r] eqn:Hpc; try discriminate. injection H as <-.
-  fold (complete_pcs s t r).
-  assert (Hm : is_main (pcs s t) = true) by (rewrite Hpc; reflexivity).
-  destruct (i_main_in s I t Hm) as [Htb Htok].
-  assert (Hnomain : forall x, is_main (complete_pcs s t r x) = false).
-  { intro x. destruct (complete_pcs_cases s t r x) as [[_ E]|(A & B & E)]; rewrite E; [reflexivity|].
-    destruct (is_main (pcs s x)) eqn:Em; auto. destruct (i_main_in s I x Em). tauto. }
-  constructor; simpl.
-  - intros t0 c0 Hin. destruct (i_pend s I t0 c0 Hin) as (A & B & C). split; auto.
-    destruct (complete_pcs_cases s t r t0) as [[[E|E] _]|(_ & _ & E)]; [subst; tauto|tauto|]. rewrite E. auto.
-  - apply (i_pend_nd s I).
-  - intros t0 c0 [].
-  - constructor.
-  - intros t0 Hx. rewrite Hnomain in Hx. discriminate.
-  - intros t1 t2 Hx. rewrite Hnomain in Hx. discriminate.
-  - intro Hx. split; auto. destruct (pending s); [discriminate|discriminate].
-  - intro Hx. rewrite Hx. auto.
-  - intros t0 Hx. apply post_commit_main in Hx. rewrite Hnomain in Hx. discriminate.
-  - discriminate.
-  - intros t0 c0 Hx. destruct (complete_pcs_cases s t r t0) as [[_ E]|(_ & _ & E)]; rewrite E in Hx; [discriminate|].
-    eapply i_got; eauto.
-  - intros x Hx. destruct (complete_pcs_cases s t r x) as [[_ E]|(A & B & E)]; rewrite E in Hx; [discriminate|].
-    destruct (i_wait s I x Hx) as [Hw|Hw]; [tauto|]. left. exact Hw.
-  - intro Hx. left. destruct (pending s); [congruence|reflexivity].
-  - destruct (i_pool s I) as (hs & A & B & C). exists hs. repeat split; auto.
-    + intro Hx. apply B in Hx. destruct (complete_pcs_cases s t r t0) as [[_ E]|(_ & _ & E)]; rewrite E; auto.
-    + intro Hx. apply B. destruct (complete_pcs_cases s t r t0) as [[[E0|E0] E]|(_ & _ & E)].
-      * subst. now apply main_holding.
-      * destruct (batch_member s t0 I E0) as [E1|E1]; [now rewrite E1|now apply main_holding].
-      * now rewrite <- E.
-Qed.
 
 Lemma stepS sg s e s' : InvS s -> step sg s e = Some s' -> InvS s'.
 Proof.
@@ -423,7 +13,9 @@ Proof.
   - eapply stepS_main_events; eauto.
   - eapply stepS_main_events; eauto.
   - eapply stepS_main_events; eauto 6.
-  - eapply stepS_main_events; eauto 6.
+  - eapply stepS_main_events; eauto 7.
+  - eapply stepS_main_events; eauto 7.
+  - eapply stepS_main_events; eauto 8.
   - eapply stepS_complete; eauto.
   - eapply stepS_done; eauto.
   - (* EExtDrop: only the registry cell changes *)
@@ -431,3 +23,4 @@ Proof.
     destruct (forallb is_empty x); [|discriminate]. injection H as <-.
     destruct I. constructor; simpl; auto.
 Qed.
+
